@@ -182,8 +182,9 @@ func c18Case(ev *vlib.Evidence, idx int) {
 					}
 				}
 				uri := fmt.Sprintf("enode://%s@%s:%d", p.NodeID, host, 30303+r.Intn(5))
-				if r.Intn(8) == 0 {
-					uri = "enode://" + p.NodeID + "@" // no address known
+				if r.Intn(5) == 0 {
+					// no address known, in every address-less spelling
+					uri = vlib.Pick(r, "enode://"+p.NodeID+"@", "enode://"+p.NodeID, p.NodeID)
 				}
 				s.active = append(s.active, uri)
 			case 2:
